@@ -385,6 +385,8 @@ type onePathSim struct {
 	anyMay   bool // some visited node may detect (and none must)
 	diverged bool
 	rejected bool
+	stack    []int // containers being serialized, outermost first
+	loop     []int // when diverged by reaching a container that is still being serialized: the containers of that loop
 }
 
 func (p *onePathSim) mayMiss(id int) bool {
@@ -435,15 +437,23 @@ func (p *onePathSim) walk(id int, onStack map[int]bool) {
 	}
 	if onStack[id] {
 		p.diverged = true
+		for i, x := range p.stack {
+			if x == id {
+				p.loop = append([]int{}, p.stack[i:]...)
+				break
+			}
+		}
 		return
 	}
 	onStack[id] = true
+	p.stack = append(p.stack, id)
 	for _, c := range p.s.children(id) {
 		p.walk(c, onStack)
 		if p.diverged || p.rejected {
 			return
 		}
 	}
+	p.stack = p.stack[:len(p.stack)-1]
 	delete(onStack, id)
 }
 
@@ -457,6 +467,124 @@ func (s *spec) simulate(id int, native bool) *onePathSim {
 // detector follows only one path per value.
 func (s *spec) serMayDiverge() bool { return s.simulate(s.Root, false).diverged }
 func (s *spec) natMayDiverge() bool { return s.simulate(s.Root, true).diverged }
+
+// --- a.s. termination of the serializer on a cycle that the one-path detector can only see by
+// chance. Serialize re-runs the detector (fresh random map-entry choices) at every value it visits,
+// so when the serializer walks round a reference cycle, every round is another chance to reject.
+//
+// smallMapEntries: a Go map that never held more than 8 entries is one bucket (one group in the
+// swiss-table runtime) whose iteration starts at a uniformly random slot, so `for range` yields each
+// of its entries first with probability >= 1/8 whatever the hash seed. Larger maps give no such
+// guarantee (an entry in an overflow bucket is never first), hence count as 0 here.
+const smallMapEntries = 8
+
+// detectLow: lower bound of the probability that the one-path detector started at id rejects
+// (same walk as onePathMayDetect, weighted: single-entry map 1, map of 2..8 entries 1/8 per entry,
+// larger map 0).
+func (s *spec) detectLow(id int, visited map[int]bool, depth int) float64 {
+	if depth > detDepthLimit {
+		return 1
+	}
+	n := &s.N[id]
+	switch n.K {
+	case kArray, kStruct:
+		if len(n.E) == 0 {
+			return 0
+		}
+		if visited[id] {
+			return 1
+		}
+		visited[id] = true
+		return s.detectLow(n.E[0], visited, depth+1)
+	case kMap:
+		if visited[id] {
+			return 1
+		}
+		visited[id] = true
+		if len(n.E) == 0 || len(n.E) > smallMapEntries {
+			return 0
+		}
+		w := 1.0 / smallMapEntries
+		if len(n.E) == 1 {
+			w = 1
+		}
+		sum := 0.0
+		for _, c := range n.E {
+			sum += w * s.detectLow(c, copySet(visited), depth+1)
+		}
+		return sum
+	}
+	return 0
+}
+
+// serLoopRejectLow: for a value on which the serializer walk comes back to a container it is still
+// serializing without a certain rejection (simulate().diverged through a loop), a lower bound of the
+// probability that ONE round of that loop ends with a rejection: the serializer calls the detector
+// once per round on every container of the loop, so the best detectLow among them bounds it.
+// ok is false when the walk does not end in such a loop.
+func (s *spec) serLoopRejectLow() (low float64, ok bool) {
+	p := s.simulate(s.Root, false)
+	if !p.diverged || len(p.loop) == 0 {
+		return 0, false
+	}
+	for _, id := range p.loop {
+		if x := s.detectLow(id, map[int]bool{}, 0); x > low {
+			low = x
+		}
+	}
+	return low, true
+}
+
+// rejectLowMin: a cycle whose loop is rejected with probability >= 1/64 per round survives r rounds
+// with probability <= (63/64)^r. Killing the worker takes 64 MiB of serializer frames (712 bytes
+// each: > 94000 nested calls, i.e. > 8500 rounds of a loop of at most 11 containers - longer loops
+// are rejected by the depth rule), so the probability is < 1e-50: such values must come back with
+// an error, never with a dead process.
+const rejectLowMin = 1.0 / 64
+
+// roundsBound: with a rejection probability of at least low per round, more than 70/low rounds
+// happen with probability < e^-70 (< 1e-30).
+func roundsBound(low float64) int { return int(70/low) + 1 }
+
+// cutSize: serialized size (reference encoding) of the value expanded as a tree with every reference
+// to a container on the current path left out; at most `limit` is computed. One round of the
+// serializer through a reference cycle writes at most this many bytes, and so does everything it
+// writes before it enters the cycle.
+func (s *spec) cutSize(limit int) int {
+	total := 0
+	var rec func(id int, onPath map[int]bool)
+	rec = func(id int, onPath map[int]bool) {
+		if total > limit {
+			return
+		}
+		n := &s.N[id]
+		if !n.container() {
+			total += len(s.refEncode(nil, id))
+			return
+		}
+		if onPath[id] {
+			return
+		}
+		onPath[id] = true
+		total += 1 + len(putVarUint(nil, uint64(len(n.E))))
+		for i, c := range n.E {
+			if n.K == kMap {
+				rec(n.MK[i], onPath)
+			}
+			rec(c, onPath)
+		}
+		delete(onPath, id)
+	}
+	rec(s.Root, map[int]bool{})
+	return total
+}
+
+// serRejectsAlmostSurely: the cycle can escape a single detector run, but Serialize is certain (up to
+// a probability below 1e-50) to reject it within a few rounds.
+func (s *spec) serRejectsAlmostSurely() bool {
+	low, ok := s.serLoopRejectLow()
+	return ok && low >= rejectLowMin
+}
 
 // serOrderDependent: with a detector that inspects one arbitrary map entry, Serialize of node id
 // is accepted for some iteration orders and rejected for others.
@@ -1019,6 +1147,7 @@ type wres struct {
 	Panic   string   `json:"panic,omitempty"` // recovered Go panic inside the code under test
 	OK      bool     `json:"ok"`
 	Err     string   `json:"err,omitempty"`
+	ErrSize int      `json:"errsize,omitempty"` // bytes written to the sink when the encoder gave up
 	Out     []byte   `json:"out,omitempty"`
 	DeOK    bool     `json:"deok"`
 	DeErr   string   `json:"deerr,omitempty"`
@@ -1063,6 +1192,7 @@ func workerHandle(in []byte) (out []byte) {
 		}
 		if err != nil {
 			rs.Err = err.Error()
+			rs.ErrSize = int(sink.Size())
 			break
 		}
 		rs.OK = true
